@@ -6,7 +6,7 @@ HOOKS = {
     "add_only": True,
 }
 ENGINES = [
-    {"name": "verus", "path": "/verif/lib/verusrun.py", "serves_properties": ["C17", "C06"],
+    {"name": "verus", "path": "/verif/lib/verusrun.py", "serves_properties": ["C17", "C06", "C07"],
      "kind_free_text": "Verus 0.2026.09.13 (z3) on text extracted from /repo/src on every run by /verif/tools/extract (syn AST anchors, byte-copied bodies)"},
 ]
 NOTES = ("Contract-based deductive verification. exit 0 = all obligations discharged; exit 1 = VIOLATION; "
@@ -27,12 +27,18 @@ CHECKS["C06"] = {
     "text": "Unbounded (all 21 codes, symbolically) proof that n, n-k, k and q returned by the real functions equal Tables 5a/5b/7a/7b; see the evidence for the table-shape and construction obligations currently registered.",
     "note": "Trusted: Verus/z3, the extractor, the standard's tables as transcribed in specs/dvbs2/std.rs.in. Not decided: 4-cycle freedom, girth, encoder acceptance, equality with a pinned matrix.",
 }
+CHECKS["C07"] = {
+    "engine": "verus",
+    "design_ref": "DESIGN.md section 5, C07",
+    "technique": "Verus function contracts on the extracted real text of src/codes/ccsds.rs (AR4JA part) against the Blue Book formulas",
+    "text": "Unbounded proof over all nine AR4JA codes (symbolic rate and size) that M follows Table 7-2, pi_k(i) equals the Blue Book formula and stays below M, theta/phi tables equal the pinned tables, and h() never panics or overflows and returns a well-formed 3M x (k+3M) matrix; see evidence for the view-level obligations registered.",
+    "note": "Trusted: Verus/z3, the extractor (N3 on the two statics), SparseMatrix::new. Not decided: rank, invertibility of the last 3M columns, girth, the C2 code (uses enumerate), equality with pinned matrices.",
+}
 NOT_APPLICABLE = {
     "C01": "check under construction (DESIGN.md section 5, C01): not registered until it runs green on the unchanged tree",
     "C03": "check under construction (DESIGN.md section 5, C03)",
     "C04": "check under construction (DESIGN.md section 5, C04)",
     "C05": "check under construction (DESIGN.md section 5, C05)",
-    "C07": "check under construction (DESIGN.md section 5, C07)",
     "C10": "check under construction (DESIGN.md section 5, C10)",
     "C14": "check under construction (DESIGN.md section 5, C14)",
     "C15": "check under construction (DESIGN.md section 5, C15)",
